@@ -217,6 +217,19 @@ func check(c Case) (string, string) {
 	if d := geomgen.Diff(g, got, true); d != "" {
 		return "roundtrip-differs", d + ": " + string(enc)
 	}
+	// memory layout: the geometry with its vertex slices cut from one flat
+	// buffer encodes to the same text and is not written to
+	if c.Pair == nil {
+		if sym, det := geomgen.LayoutCheck(g, func(x geom.Geom) string {
+			var o string
+			if p := try(func() { b, err := geojson.Encode(x); o = fmt.Sprintf("%s %v", b, err) }); p != "" {
+				return "panic: " + p
+			}
+			return o
+		}); sym != "" {
+			return "encode|" + sym, det
+		}
+	}
 	// the geometry decoded earlier must survive a later Decode call (history)
 	if p := try(func() { geojson.Decode(otherEnc) }); p == "" {
 		if d := geomgen.Diff(g, got, true); d != "" {
